@@ -1,6 +1,7 @@
 // Driver for native witness search / replay (compiled against a scratch copy of /repo).
 // usage: verif-native <oracle> [args...]   prints `VERIF-RESULT {json}` lines.
 include!("/verif/native/gsd_oracles.rs");
+include!("/verif/native/phy_oracles.rs");
 fn main() {
     let args: Vec<String> = std::env::args().collect();
     if args.len() < 2 {
@@ -19,6 +20,7 @@ fn main() {
         "c02_las" => profirust::fdl::__verif_native_token_ring::c02_las(&rest, seed),
         "c03_wd" => profirust::fdl::__verif_native_parameters::c03_wd(&rest, seed),
         "c17_iter" => profirust::dp::__verif_native_diagnostics::c17_iter(&rest, seed),
+        "c16_chunks" => phy_oracles::c16_chunks(&rest, seed),
         "c20_write" => gsd_oracles::c20_write(&rest, seed),
         "c20_builder" => gsd_oracles::c20_builder(&rest, seed),
         other => {
